@@ -192,6 +192,7 @@ class Cli:
         ms = {0, 1, 51, 52, 53, 60, 64, 65, 52 + L - 1, 52 + L, 52 + L + 1, 52 + L + 7, 52 + L + 16, 52 + L + 17, size, size + 100}
         for _ in range(n_random):
             ms.add(r.randint(52 + L, max(52 + L, size + 40)))
+        resplit_of = {52 + L}
         for m in sorted(x for x in ms if x >= 0):
             d = os.path.join(self.box, "out%d" % m)
             cmd = ["split", "src.pna", "--max-size", str(m), "--out-dir", "out%d" % m, "--overwrite"]
@@ -218,6 +219,22 @@ class Cli:
                             self.fail("pna concat of the parts failed (max %d, rc=%d)" % (m, rc), cmd + ["&&"] + ccmd, rc, out)
                         else:
                             self.compare(os.path.join(d, "joined.pna"), "concat%d" % m, cmd + ["&&"] + ccmd)
+                    # the parts as INPUT of another split (seeded C04-6, fix f4d9f833): the chain is read from its first
+                    # part, entries straddle the input parts' boundaries; the result must still be the original
+                    if n > 1 and (m in resplit_of or len(resplit_of) < 2):
+                        resplit_of.add(m)
+                        for m2 in sorted({52 + L, 52 + L + 9, size + 100} - {m}):
+                            rd = os.path.join(self.box, "re%d_%d" % (m, m2))
+                            rcmd = ["split", os.path.join("out%d" % m, "src.part1.pna"), "--max-size", str(m2), "--out-dir", "re%d_%d" % (m, m2), "--overwrite"]
+                            rc, out = self.sh(rcmd)
+                            self.c.hist["cli split of a part chain"] = self.c.hist.get("cli split of a part chain", 0) + 1
+                            if rc != 0:
+                                self.fail("pna split of the parts written with --max-size %d failed (max %d, rc=%d)" % (m, m2, rc), cmd + ["&&"] + rcmd, rc, out)
+                            else:
+                                first2, n2 = self.check_parts(rd, "src", m2, cmd + ["&&"] + rcmd)
+                                if first2:
+                                    self.compare(first2, "resplit%d_%d" % (m, m2), cmd + ["&&"] + rcmd)
+                            shutil.rmtree(rd, ignore_errors=True)
             shutil.rmtree(d, ignore_errors=True)
         # the same output directory used twice with --overwrite, the second time with a smaller limit: every part of
         # the second run replaces a longer file of the first one and must still respect ITS limit
